@@ -31,6 +31,10 @@ ASSUMPTIONS = [
     "unyt.physical_constants exposes every constant under its key, its aliases and the _mks/_cgs suffixes (C15-R5)",
 ]
 
+from engine.algebra import Prod  # noqa: E402
+from engine.algebra import add as alg_add  # noqa: E402
+from engine.algebra import sub as alg_sub  # noqa: E402
+
 EQ = "unyt/equivalencies.py"
 ARR = "unyt/array.py"
 UO = "unyt/unit_object.py"
@@ -39,10 +43,13 @@ UO = "unyt/unit_object.py"
 class Q:
     """abstract quantity: dimension vector + monomial formula"""
 
-    def __init__(self, dim, mono, isx=False, kind="float"):
+    def __init__(self, dim, mono, isx=False, kind="float", alg=None):
         self.dim = dim
         self.mono = mono
         self.isx = isx
+        # the same value in the richer normal form of engine.algebra (sums under rational powers): decides the
+        # formulas that are not monomials (Lorentz factor)
+        self.alg = alg
         # dtype kind lattice for the numbers: "int" (python / NumPy integer), "int?" (the input array: integer
         # data is accepted), "float".  Used to find operations that have integer (truncating) semantics.
         self.kind = kind
@@ -77,12 +84,12 @@ class Interp:
             raise AnalysisError(f"{fn.where()}: _convert signature not (self, x, new_dims, ...)")
         self.selfname, self.xname, self.ndname = names[0], names[1], names[2]
         self.env = {
-            self.xname: Q(from_dv, Mono.atom("x"), isx=True, kind="int?"),
+            self.xname: Q(from_dv, Mono.atom("x"), isx=True, kind="int?", alg=Prod.atom("x")),
             self.ndname: DimTok(to_dv),
         }
         defaults = dict(zip(names[::-1], a.defaults[::-1]))
         for p in names[3:]:
-            self.env[p] = Q(ONE, Mono.atom(p))
+            self.env[p] = Q(ONE, Mono.atom(p), alg=Prod.atom(p))
             if p not in defaults:
                 raise AnalysisError(f"{fn.where()}: parameter {p} has no default")
         self.param_defaults = {p: defaults[p] for p in names[3:]}
@@ -105,7 +112,7 @@ class Interp:
     # -- expressions ----------------------------------------------------------
     def ev(self, n, in_getout=False):
         if isinstance(n, ast.Constant) and isinstance(n.value, (int, float)):
-            return Q(ONE, Mono.num(n.value), kind="int" if isinstance(n.value, int) and not isinstance(n.value, bool) else "float")
+            return Q(ONE, Mono.num(n.value), kind="int" if isinstance(n.value, int) and not isinstance(n.value, bool) else "float", alg=Prod.num(n.value))
         if isinstance(n, ast.Name):
             if n.id in self.env:
                 v = self.env[n.id]
@@ -125,32 +132,42 @@ class Interp:
                 if n.attr not in self.consts:
                     raise AnalysisError(f"{self.fn.where(n)}: unknown physical constant {n.attr}")
                 key, dv = self.consts[n.attr]
-                return Q(dv, Mono.atom(key), kind="float")
+                return Q(dv, Mono.atom(key), kind="float", alg=Prod.atom(key))
             raise AnalysisError(f"{self.fn.where(n)}: unsupported attribute {txt}")
         if isinstance(n, ast.BinOp):
             a, b = self.ev(n.left), self.ev(n.right)
             if isinstance(n.op, ast.Mult):
-                return Q(a.dim * b.dim, a.mono * b.mono, kind=_join_kind(a.kind, b.kind))
+                return Q(a.dim * b.dim, a.mono * b.mono, kind=_join_kind(a.kind, b.kind), alg=a.alg * b.alg)
             if isinstance(n.op, ast.Div):
-                return Q(a.dim / b.dim, a.mono / b.mono, kind="float")
+                return Q(a.dim / b.dim, a.mono / b.mono, kind="float", alg=a.alg / b.alg)
             if isinstance(n.op, ast.FloorDiv):
                 if a.kind != "float" or b.kind != "float" or True:
                     self.r8_bad.append((n, "floor division"))
-                return Q(a.dim / b.dim, Mono.opaque(), kind=_join_kind(a.kind, b.kind))
+                return Q(a.dim / b.dim, Mono.opaque(), kind=_join_kind(a.kind, b.kind), alg=Prod.atom("floor(" + repr(a.alg / b.alg) + ")"))
             if isinstance(n.op, ast.Pow):
                 p = self._numeric(n.right)
                 k = a.kind if b.kind != "float" else "float"
                 if a.kind != "float" and p < 0:
                     self.r8_bad.append((n, "negative power of possibly-integer data"))
-                return Q(a.dim ** p, a.mono ** p, kind=k)
+                return Q(a.dim ** p, a.mono ** p, kind=k, alg=a.alg ** p)
             if isinstance(n.op, (ast.Add, ast.Sub)):
                 if a.dim != b.dim:
                     self.type_errors.append(f"{norm(n)}: adds {a.dim} and {b.dim}")
-                return Q(a.dim, Mono.opaque(), kind=_join_kind(a.kind, b.kind))
+                return Q(a.dim, Mono.opaque(), kind=_join_kind(a.kind, b.kind), alg=(alg_add(a.alg, b.alg) if isinstance(n.op, ast.Add) else alg_sub(a.alg, b.alg)))
             raise AnalysisError(f"{self.fn.where(n)}: unsupported operator")
+        if isinstance(n, ast.UnaryOp) and isinstance(n.op, ast.Not):
+            v = self.ev(n.operand)
+            if isinstance(v, bool):
+                return not v
+            raise AnalysisError(f"{self.fn.where(n)}: negation of a non-boolean")
+        if isinstance(n, ast.BoolOp):
+            vals = [self.ev(v_) for v_ in n.values]
+            if all(isinstance(v_, bool) for v_ in vals):
+                return all(vals) if isinstance(n.op, ast.And) else any(vals)
+            raise AnalysisError(f"{self.fn.where(n)}: boolean operator on non-booleans")
         if isinstance(n, ast.UnaryOp) and isinstance(n.op, ast.USub):
             a = self.ev(n.operand)
-            return Q(a.dim, a.mono * Mono.num(-1))
+            return Q(a.dim, a.mono * Mono.num(-1), kind=a.kind, alg=a.alg * Prod.num(-1))
         if isinstance(n, ast.Compare) and len(n.ops) == 1 and isinstance(n.ops[0], (ast.Eq, ast.NotEq, ast.Is, ast.IsNot)):
             a, b = self.ev(n.left), self.ev(n.comparators[0])
             if isinstance(a, DimTok) and isinstance(b, DimTok):
@@ -187,21 +204,21 @@ class Interp:
         # this call may overwrite x (when in_place): mark after operands were read
         self.written = True
         if op == "multiply" and len(args) == 2:
-            return Q(args[0].dim * args[1].dim, args[0].mono * args[1].mono, kind=_join_kind(args[0].kind, args[1].kind))
+            return Q(args[0].dim * args[1].dim, args[0].mono * args[1].mono, kind=_join_kind(args[0].kind, args[1].kind), alg=args[0].alg * args[1].alg)
         if op in ("true_divide", "divide") and len(args) == 2:
-            return Q(args[0].dim / args[1].dim, args[0].mono / args[1].mono, kind="float")
+            return Q(args[0].dim / args[1].dim, args[0].mono / args[1].mono, kind="float", alg=args[0].alg / args[1].alg)
         if op == "sqrt" and len(args) == 1:
-            return Q(args[0].dim ** Fraction(1, 2), args[0].mono ** Fraction(1, 2), kind="float")
+            return Q(args[0].dim ** Fraction(1, 2), args[0].mono ** Fraction(1, 2), kind="float", alg=args[0].alg ** Fraction(1, 2))
         if op == "reciprocal" and len(args) == 1:
             # NumPy: "For integer arguments with absolute value larger than 1 the result is always zero"
             if args[0].kind != "float":
                 self.r8_bad.append((n, "np.reciprocal of possibly-integer data (integer division: 1/n is 0 for |n| > 1)"))
-            return Q(args[0].dim ** -1, args[0].mono ** -1, kind=args[0].kind)
+            return Q(args[0].dim ** -1, args[0].mono ** -1, kind=args[0].kind, alg=args[0].alg ** -1)
         if op == "floor_divide" and len(args) == 2:
             self.r8_bad.append((n, "np.floor_divide"))
-            return Q(args[0].dim / args[1].dim, Mono.opaque(), kind=_join_kind(args[0].kind, args[1].kind))
+            return Q(args[0].dim / args[1].dim, Mono.opaque(), kind=_join_kind(args[0].kind, args[1].kind), alg=Prod.atom("floor(" + repr(args[0].alg / args[1].alg) + ")"))
         if op == "square" and len(args) == 1:
-            return Q(args[0].dim ** 2, args[0].mono ** 2, kind=args[0].kind)
+            return Q(args[0].dim ** 2, args[0].mono ** 2, kind=args[0].kind, alg=args[0].alg ** 2)
         if op == "power" and len(args) == 2:
             p = args[1]
             if not (p.dim == ONE and not p.mono.is_opaque and not p.mono.atoms):
@@ -210,11 +227,11 @@ class Interp:
             k = args[0].kind if p.kind != "float" else "float"
             if args[0].kind != "float" and p.kind != "float" and pp < 0:
                 self.r8_bad.append((n, "negative integer power of possibly-integer data"))
-            return Q(args[0].dim ** pp, args[0].mono ** pp, kind=k)
+            return Q(args[0].dim ** pp, args[0].mono ** pp, kind=k, alg=args[0].alg ** pp)
         if op in ("subtract", "add") and len(args) == 2:
             if args[0].dim != args[1].dim:
                 self.type_errors.append(f"{norm(n)[:50]}: combines {args[0].dim} and {args[1].dim}")
-            return Q(args[0].dim, Mono.opaque(), kind=_join_kind(args[0].kind, args[1].kind))
+            return Q(args[0].dim, Mono.opaque(), kind=_join_kind(args[0].kind, args[1].kind), alg=(alg_add(args[0].alg, args[1].alg) if op == "add" else alg_sub(args[0].alg, args[1].alg)))
         raise AnalysisError(f"{self.fn.where(n)}: unsupported NumPy operation {op}")
 
     # -- statements -----------------------------------------------------------
@@ -236,7 +253,7 @@ class Interp:
             if isinstance(st, ast.Assign) and len(st.targets) == 1 and isinstance(st.targets[0], ast.Name):
                 v = self.ev(st.value)
                 if isinstance(v, Q):
-                    v = Q(v.dim, v.mono, kind=v.kind)  # a result is not "x"
+                    v = Q(v.dim, v.mono, kind=v.kind, alg=v.alg)  # a result is not "x"
                 self.env[st.targets[0].id] = v
                 continue
             if isinstance(st, ast.Return):
@@ -275,6 +292,27 @@ def spec_mono(f):
         return None
     c, atoms = f
     return Mono(float(c), {k: Fraction(v) for k, v in atoms.items()})
+
+
+def spec_alg(node, consts):
+    """reference formula (nested tuples of spec.equivalence_formulas.NON_MONOMIAL) -> engine.algebra.Prod; constant
+    names are mapped to the atoms the interpreter uses for the library's constants"""
+    from engine.algebra import Sum
+
+    names = {"c": "clight"}
+
+    def atom_name(k):
+        if k == "x":
+            return "x"
+        key = names.get(k, k)
+        return consts[key][0] if key in consts else key
+
+    _, c, atoms, sums = node
+    p = Prod(c, {atom_name(k): v for k, v in atoms.items()})
+    for terms, e in sums:
+        ts = [spec_alg(t_, consts) for t_ in terms]
+        p = p * (alg_add(*ts) ** Fraction(e))
+    return p
 
 
 def check(repo: Repo) -> Result:
@@ -342,6 +380,7 @@ def check(repo: Repo) -> Result:
             for d in sp["dims"]:
                 spec_names[spec_dv(d)] = d
         monos = {}
+        algs = {}
         for (an, adv), (bn, bdv) in itertools.permutations(dims, 2):
             label = f"{tn}:{an}->{bn}"
             it = Interp(res, fn, t, consts, adv, bdv, None, label)
@@ -371,11 +410,24 @@ def check(repo: Repo) -> Result:
             else:
                 res.check(v.kind == "float", label, fn.where(), f"{tn} {an} -> {bn}: the returned value stays integer-typed for integer input", "float", v.kind, rid=r8)
             monos[(adv, bdv)] = v.mono
+            algs[(adv, bdv)] = v.alg
             if sp:
                 a_s, b_s = spec_names.get(adv), spec_names.get(bdv)
                 want = spec_mono(sp["formulas"].get((a_s, b_s))) if a_s and b_s else None
                 if want is not None:
                     res.check(v.mono.same(want), label, fn.where(), f"{tn}: formula for {an} -> {bn} differs from the reference", repr(want), repr(v.mono), rid=r3)
+                elif (tn, a_s, b_s) in getattr(SPEC, "NON_MONOMIAL", {}):
+                    wantp = spec_alg(SPEC.NON_MONOMIAL[(tn, a_s, b_s)], consts)
+                    res.check(v.alg.same(wantp), label, fn.where(), f"{tn}: formula for {an} -> {bn} differs from the reference (compared in the sum-under-power normal form)", repr(wantp), repr(v.alg), rid=r3)
+        # inverse and path laws for the formulas that are not monomials: the same compositions in the algebra
+        XA = Prod.atom("x")
+        for (a, b), p_ab in sorted(algs.items(), key=lambda kv: repr(kv[0])):
+            if (b, a) in algs and (monos[(a, b)].is_opaque or monos[(b, a)].is_opaque):
+                try:
+                    comp = algs[(b, a)].subst("x", p_ab)
+                except ValueError as e:
+                    comp = None
+                res.check(comp is not None and comp.same(XA, 1e-9), f"{tn}:{a}->{b}->{a}", fn.where(), f"{tn}: converting {a} -> {b} -> {a} is not the identity (composition normalised in the sum-under-power algebra, atoms positive)", "x", repr(comp), rid=r3b)
         # inverse and path laws
         X = Mono.atom("x")
         for (a, b), m_ab in sorted(monos.items(), key=lambda kv: repr(kv[0])):
@@ -538,6 +590,8 @@ def _entry_points(repo, res, classes):
 
 
 MUTANTS = [
+    Mutant("lorentz-beta-inverted", EQ, "LorentzEquivalence._convert", "beta = np.true_divide(x, pc.clight, out=self._get_out(x))", "beta = np.true_divide(pc.clight, x, out=self._get_out(x))", ("C09-R3a", "C09-R3b")),
+    Mutant("lorentz-sign", EQ, "LorentzEquivalence._convert", "beta2 = np.subtract(1, inv_gamma_2, out=self._get_out(x))", "beta2 = np.subtract(inv_gamma_2, 1, out=self._get_out(x))", ("C09-R3a", "C09-R3b")),
     Mutant("thermal-swap", EQ, "ThermalEquivalence._convert", "np.multiply(x, pc.kboltz", "np.true_divide(x, pc.kboltz", ("C09-R2", "C09-R3a")),
     Mutant("spectral-drop-c", EQ, "SpectralEquivalence._convert", "np.multiply(x, pc.h_mks * pc.clight, out", "np.multiply(x, pc.h_mks, out", ("C09-R2", "C09-R3a")),
     Mutant("schwarzschild-factor", EQ, "SchwarzschildEquivalence._convert", "0.5 * pc.clight", "2.0 * pc.clight", ("C09-R3a", "C09-R3b")),
